@@ -122,6 +122,17 @@ def gen(rng, tier):
                 near_mid = b["id"]
             else:
                 near_mid = None
+        elif g % 4 == 2:
+            # two point loads closer together than a thousandth of the bar, on a bar that is also drawn from its other end
+            cand = [b for b in s.bars if b["l1"][2] or b["l2"][2]] or s.bars
+            b = cand[(g // 4) % len(cand)]
+            t0 = Fr(rng.choice(["0.37", "0.6431", "0.52"]))
+            d = Fr(rng.choice(["0.0004", "0.0007"]))
+            near_mid = None
+            if all(abs(t0 - x) > Fr("0.002") and abs(t0 + d - x) > Fr("0.002") for l in s.loads if l["bar"] == b["id"] for x in ([l["t"]] if l["kind"] == "c" else [l["t0"], l["t1"]])):
+                s.loads.append({"kind": "c", "term": "fy", "local": True, "bar": b["id"], "t": t0, "v": Fr(-1200)})
+                s.loads.append({"kind": "c", "term": "fy", "local": True, "bar": b["id"], "t": t0 + d, "v": Fr(700)})
+                near_mid = b["id"]
         else:
             near_mid = None
         iso = isotropic(s)
